@@ -2,6 +2,7 @@ package h
 
 import (
 	"cosmossdk.io/math"
+	"github.com/cosmos/cosmos-sdk/types/query"
 
 	dispatchercomp "github.com/noble-assets/orbiter/v2/keeper/component/dispatcher"
 	dispatchertypes "github.com/noble-assets/orbiter/v2/types/component/dispatcher"
@@ -14,6 +15,7 @@ func init() {
 	reg("H_C13_amounts", H_C13_amounts)
 	reg("H_C13_counts", H_C13_counts)
 	reg("H_C13_index_keys", H_C13_index_keys)
+	reg("H_C13_paging", H_C13_paging)
 }
 
 type statEntry struct {
@@ -229,4 +231,165 @@ func H_C13_index_keys() {
 			verif.Assert(len(got) == 0, "entry-is-not-listed-under-another-protocol")
 		}
 	}
+}
+
+// ---- paging -----------------------------------------------------------------------------------------------------------
+
+type listedEntry struct {
+	src, dst core.CrossChainID
+	denom    string
+}
+
+func sameListed(a, b listedEntry) bool {
+	return sameID(a.src, b.src) && sameID(a.dst, b.dst) && a.denom == b.denom
+}
+
+// listPage runs one of the four paginated listings with the given page request and returns the entries of the page.
+func listPage(qs dispatchertypes.QueryServer, w *World, listing int, p core.ProtocolID, req *query.PageRequest) ([]listedEntry, *query.PageResponse, error) {
+	var out []listedEntry
+	name := protoNames[p-1]
+	switch listing {
+	case 0, 1:
+		var r *dispatchertypes.QueryDispatchedAmountsResponse
+		var err error
+		if listing == 0 {
+			r, err = qs.DispatchedAmountsByDestinationProtocolID(w.Ctx, &dispatchertypes.QueryDispatchedAmountsByProtocolIDRequest{ProtocolId: name, Pagination: req})
+		} else {
+			r, err = qs.DispatchedAmountsBySourceProtocolID(w.Ctx, &dispatchertypes.QueryDispatchedAmountsByProtocolIDRequest{ProtocolId: name, Pagination: req})
+		}
+		if err != nil {
+			return nil, nil, err
+		}
+		for _, e := range r.Amounts {
+			out = append(out, listedEntry{*e.SourceId, *e.DestinationId, e.Denom})
+		}
+		return out, r.Pagination, nil
+	default:
+		var r *dispatchertypes.QueryDispatchedCountsResponse
+		var err error
+		if listing == 2 {
+			r, err = qs.DispatchedCountsByDestinationProtocolID(w.Ctx, &dispatchertypes.QueryDispatchedCountsByProtocolIDRequest{ProtocolId: name, Pagination: req})
+		} else {
+			r, err = qs.DispatchedCountsBySourceProtocolID(w.Ctx, &dispatchertypes.QueryDispatchedCountsByProtocolIDRequest{ProtocolId: name, Pagination: req})
+		}
+		if err != nil {
+			return nil, nil, err
+		}
+		for _, e := range r.Counts {
+			out = append(out, listedEntry{*e.SourceId, *e.DestinationId, ""})
+		}
+		return out, r.Pagination, nil
+	}
+}
+
+// H_C13_paging: for any page size, following next-keys forwards or in reverse visits each matching entry exactly once, with
+// a correct total; offset paging returns the corresponding slice of the full listing. Ledgers of concrete keys.
+func H_C13_paging() {
+	w := NewWorld(false)
+	d := w.K.Dispatcher()
+	qs := dispatchercomp.NewQueryServer(d)
+	listing := verif.Choose("listing", 4)
+	// a ledger of n entries to CCTP domains (matching) plus foreign entries to Hyperlane / from nowhere else
+	n := verif.Choose("matching-entries", verif.Bound("entries")+1)
+	var match []listedEntry
+	srcs := []string{"channel-0", "channel-1", "channel-10", "channel-2"}
+	for i := 0; i < n; i++ {
+		src := core.CrossChainID{ProtocolId: core.PROTOCOL_IBC, CounterpartyId: srcs[i%len(srcs)]}
+		dst := core.CrossChainID{ProtocolId: core.PROTOCOL_CCTP, CounterpartyId: (&fwdtypes.CCTPAttributes{DestinationDomain: uint32([]int{7, 0, 12, 3, 100}[i%5])}).CounterpartyID()}
+		if listing < 2 {
+			must(d.SetDispatchedAmount(w.Ctx, &src, &dst, nativeDenom, dispatchertypes.AmountDispatched{Incoming: math.NewInt(int64(10 + i)), Outgoing: math.NewInt(int64(5 + i))}))
+			match = append(match, listedEntry{src, dst, nativeDenom})
+		} else {
+			must(d.SetDispatchedCounts(w.Ctx, &src, &dst, uint64(1+i)))
+			match = append(match, listedEntry{src, dst, ""})
+		}
+	}
+	if verif.Bool("foreign-entries") {
+		src := core.CrossChainID{ProtocolId: core.PROTOCOL_IBC, CounterpartyId: "channel-0"}
+		dst := core.CrossChainID{ProtocolId: core.PROTOCOL_HYPERLANE, CounterpartyId: "7"}
+		must(d.SetDispatchedAmount(w.Ctx, &src, &dst, nativeDenom, dispatchertypes.AmountDispatched{Incoming: math.NewInt(1), Outgoing: math.NewInt(1)}))
+		must(d.SetDispatchedCounts(w.Ctx, &src, &dst, 9))
+	}
+	// by-destination listings are asked for CCTP; by-source listings for IBC return the foreign entry too
+	p := core.PROTOCOL_CCTP
+	if listing == 1 || listing == 3 {
+		p = core.PROTOCOL_IBC
+	}
+	full, _, err := listPage(qs, w, listing, p, nil)
+	verif.Assert(err == nil, "unpaged-listing-succeeds")
+	if err != nil {
+		return
+	}
+	total := len(full)
+	verif.Cover("ledger-built")
+
+	limit := uint64(1 + verif.Choose("page-limit", verif.Bound("limits")))
+	if verif.Bool("limit-beyond-the-default-page-size") {
+		limit = uint64(100 + 50*verif.Choose("big-limit", 3)) // 100, 150, 200
+	}
+	reverse := verif.Choose("reverse", 2) == 1 // (concrete on every path: the paging summary needs a concrete request)
+	if verif.Bool("offset-paging") {
+		off := uint64(verif.Choose("offset", verif.Bound("entries")+2))
+		page, resp, err := listPage(qs, w, listing, p, &query.PageRequest{Offset: off, Limit: limit, CountTotal: true, Reverse: reverse})
+		verif.Assert(err == nil, "offset-page-succeeds")
+		if err != nil {
+			return
+		}
+		verif.Cover("offset-page")
+		if off <= uint64(total) {
+			verif.Assert(resp.Total == uint64(total), "count-total-is-the-number-of-matching-entries")
+		}
+		// the page is the corresponding slice of the full listing (in the requested direction)
+		for k := range page {
+			idx := int(off) + k
+			if reverse {
+				idx = total - 1 - idx
+			}
+			verif.Assert(idx >= 0 && idx < total && sameListed(page[k], full[idx]), "offset-page-is-the-slice-of-the-full-listing")
+		}
+		want := 0
+		if int(off) < total {
+			want = total - int(off)
+			if uint64(want) > limit {
+				want = int(limit)
+			}
+		}
+		verif.Assert(len(page) == want, "offset-page-has-the-right-size")
+		return
+	}
+	// follow next-keys
+	var seen []listedEntry
+	req := &query.PageRequest{Limit: limit, Reverse: reverse}
+	for round := 0; round < verif.Bound("entries")+3; round++ {
+		page, resp, err := listPage(qs, w, listing, p, req)
+		verif.Assert(err == nil, "page-succeeds")
+		if err != nil {
+			return
+		}
+		verif.Assert(uint64(len(page)) <= limit, "page-respects-the-limit")
+		seen = append(seen, page...)
+		if resp == nil || len(resp.NextKey) == 0 {
+			verif.Cover("walk-finished")
+			break
+		}
+		req = &query.PageRequest{Key: resp.NextKey, Limit: limit, Reverse: reverse}
+	}
+	verif.Assert(len(seen) == total, "walk-visits-as-many-entries-as-match")
+	for _, x := range full {
+		c := 0
+		for _, y := range seen {
+			if sameListed(x, y) {
+				c++
+			}
+		}
+		verif.Assert(c == 1, "walk-visits-each-matching-entry-exactly-once")
+	}
+	for k := range seen {
+		idx := k
+		if reverse {
+			idx = total - 1 - k
+		}
+		verif.Assert(idx < total && sameListed(seen[k], full[idx]), "walk-follows-the-store-order")
+	}
+	_ = match
 }
